@@ -9,6 +9,9 @@ import (
 	"log"
 )
 
+// the names the harness gives the instance and the device (any text a user may put into a configuration file)
+var VerifInstanceName, VerifDeviceName = "verif", "dev"
+
 type verifDevice struct {
 	name string
 	mac  []byte
@@ -24,7 +27,7 @@ type verifConfig struct {
 	debug   bool
 }
 
-func (c verifConfig) Name() string            { return "verif" }
+func (c verifConfig) Name() string            { return VerifInstanceName }
 func (c verifConfig) LogDebug() bool          { return c.debug }
 func (c verifConfig) Devices() []DeviceConfig { return c.devices }
 
@@ -46,7 +49,7 @@ func VerifHandle(key []byte, raw []byte, debug bool) (logged string, panicked bo
 	ctx, cancel := context.WithCancel(context.Background())
 	defer cancel()
 	b := &BleStruct{cfg: verifConfig{debug: debug}, ctx: ctx, cancel: cancel}
-	b.handleNewManufacturerData(verifDevice{name: "dev", key: key}, raw)
+	b.handleNewManufacturerData(verifDevice{name: VerifDeviceName, key: key}, raw)
 	return buf.String(), false
 }
 
@@ -72,7 +75,7 @@ func (s *VerifSession) Handle(key []byte, raw []byte) (logged string, panicked b
 			logged = buf.String()
 		}
 	}()
-	s.b.handleNewManufacturerData(verifDevice{name: "dev", key: key}, raw)
+	s.b.handleNewManufacturerData(verifDevice{name: VerifDeviceName, key: key}, raw)
 	return buf.String(), false
 }
 
@@ -101,7 +104,7 @@ func VerifConcurrent(keys, raws [][]byte, rounds int) (logged string, panics int
 							p++
 						}
 					}()
-					b.handleNewManufacturerData(verifDevice{name: "dev" + string(rune('0'+i)), key: keys[i]}, append([]byte(nil), raws[i]...))
+					b.handleNewManufacturerData(verifDevice{name: VerifDeviceName + string(rune('0'+i)), key: keys[i]}, append([]byte(nil), raws[i]...))
 				}()
 			}
 			done <- p
